@@ -465,6 +465,8 @@ func sortByName(n string) *Sort {
 		return SeqOf(SStr)
 	case "ints":
 		return SeqOf(SInt)
+	case "intarr":
+		return ArrOf(SInt) // fixed-size Go arrays of integers ([2]int64 map keys)
 	case "any":
 		return SAny
 	}
